@@ -41,7 +41,7 @@ func (e *Engine) verifyFunc(key string) (res *FuncResult) {
 		spec = &FuncSpec{Key: key, File: e.fileOf(fn), Loops: map[int]*LoopSpec{}}
 	}
 	x := &Exec{
-		eng: e, fn: fn, spec: spec, decls: NewDecls(), baseArrays: map[string]Sort{},
+		eng: e, fn: fn, spec: spec, decls: NewDecls(), baseArrays: map[string]Sort{}, wildDeclared: map[string]bool{},
 		siteCount: map[string]int{}, maxPaths: 6000, assumptions: map[string]bool{},
 		strlits: map[string]Term{}, tags: map[string]int{}, inlined: map[string]bool{}, usedSpecs: map[string]bool{}, leaf: map[string]Comp{}, ordTab: map[*ssa.Function]map[ssa.Instruction]int{},
 	}
@@ -247,7 +247,32 @@ func (x *Exec) obligeEmits(st *State, name string, tags []string, A Term, g Term
 func (x *Exec) frameObligations(st *State, env *Env) {
 	ml := x.resolveModifies(st, x.spec, env.inOld())
 	i := Term{"i!fr", SInt}
+	for _, w := range wildRecs(st.heap) {
+		if _, atEntry := x.entry.heap[wildKeyPrefix+w.seq]; atEntry {
+			continue
+		}
+		for _, pat := range w.pats {
+			covered := strings.HasPrefix(pat, "ghost.") && !x.spec.StrictGhost || strings.HasPrefix(pat, "cell:")
+			for _, own := range ml.wild {
+				if strings.Contains(pat, own) {
+					covered = true
+				}
+			}
+			if ml.coarse[pat] {
+				covered = true
+			}
+			ftags := append(append([]string(nil), x.spec.Tags...), x.spec.ModTags...)
+			if covered {
+				st.obls = append(st.obls, Obl{Name: "frame:wild:" + pat, Tags: ftags, Goal: TTrue, PCLen: len(st.pc), Static: "ok", Desc: "a callee's wildcard frame " + pat + "* lies within this function's own frame"})
+			} else {
+				st.obligeStaticFail("frame:wild:"+pat, ftags, "a callee may modify every array matching "+pat+"*, which this function's modifies clause does not allow")
+			}
+		}
+	}
 	for _, name := range sortedKeys(st.heap) {
+		if strings.HasPrefix(name, wildKeyPrefix) {
+			continue
+		}
 		if strings.HasPrefix(name, "cell:") || ml.isCoarse(name) || strings.Contains(name, ":fresh:") {
 			continue
 		}
@@ -634,6 +659,7 @@ func (x *Exec) loopEnter(st *State, li *loopInfo, from *ssa.BasicBlock) {
 	dry.dryWrites = map[string]bool{}
 	dry.dryFreshFrom = x.nfresh
 	dry.dryKinds = map[string]int{}
+	dry.dryWilds = &[][2][]string{}
 	dry.inLoop[li.ord] = true
 	dry.curLoop = li.ord
 	dfr := dry.top()
@@ -687,6 +713,10 @@ func (x *Exec) loopEnter(st *State, li *loopInfo, from *ssa.BasicBlock) {
 	st.assume(Ge(na, st.alloc))
 	st.alloc = na
 	st.flushAxioms()
+	// wildcard frames of callees in the body also cover arrays nobody has looked at yet
+	for _, pw := range *dry.dryWilds {
+		st.recordWild(pw[0], pw[1])
+	}
 	st.statics = map[string]Val{}
 	for _, id := range x.loopIters(st, li) {
 		it := *st.iters[id]
